@@ -298,13 +298,13 @@ PROPS = {
                     "with a prophecy invariant; returned by next_datum/expect_datum); under that invariant datum::ListIter::next yields exactly what the "
                     "documented list-iterator protocol (the same abstract machine li_step/li_yield that cons::ListIter is verified against in C15) yields on the "
                     "value, its expect(\"badly shaped...\") and Ref::as_pair's unreachable!() are dead, Ref::as_pair/list_iter/peek/value, Datum::value and "
-                    "Value::from(datum) return the value-side components. next_datum carries the same progress / end-of-input / depth / read-error clauses as next_value. "
+                    "Value::from(datum) return the value-side components, Ref::as_ref / Ref::deref return the referenced value and Datum::from(Ref) copies value AND span tree (shape kept). next_datum carries the same progress / end-of-input / depth / read-error clauses as next_value. "
                     "NOT PROVED: that next_datum returns the same VALUE as next_value (two unary contracts cannot relate the duplicated token-to-value code without a "
                     "full functional specification of the reader) - that part is a BOUNDED stand-in run on every check (coverage.bounded), never counted as proved.",
         assumptions=[
-            "derived Clone of [SpanInfo; 2] returns an equal value (vx_clone_meta)",
-            "Ref::vector_iter / VectorIter (iter::Zip of two slice iterators), From<Ref> for Datum, AsRef/Deref for Ref are not under contract",
-            "impl Iterator for datum::ListIter is verified as an inherent method (its contract needs a precondition)",
+            "derived Clone of [SpanInfo; 2] and of SpanInfo returns an equal value (vx_clone_meta, impl Clone for SpanInfo: external_body; the derive's presence on SpanInfo / Datum is checked on every run, //@assume-derive)",
+            "Ref::vector_iter / Datum::vector_iter / VectorIter (iter::Zip of two slice iterators: an adapter Verus rejects) are not under contract",
+            "impl Iterator for datum::ListIter, impl AsRef<Value> / Deref for Ref and impl From<Ref> for Datum are verified as inherent methods (bodies are the repository's; trait headers restated)",
         ],
         not_covered=["value equality of next_datum and next_value results (bounded stand-in only)", "Ref::vector_iter, VectorIter::next"],
         trusted=STD_TRUST,
